@@ -72,3 +72,60 @@ Theorem C18_github_legacy_refuted :
   exists files, run_lint_gen true Github files = None /\ exists r, run_lint_gen true Human files = Some r.
 Proof. exact github_legacy_refuted. Qed.
 Print Assumptions C18_github_legacy_refuted.
+
+(** The formatter is one object for the whole run and [has_fail] one of its fields: the exit code and the lines of
+    each file do not depend on the order in which the files are dispatched (argument order, directory walk,
+    whichever worker finishes last). *)
+Theorem C18_lint_order : forall verb fmt files files',
+  Permutation files files' ->
+  fst (run_lint_v verb fmt files) = fst (run_lint_v verb fmt files') /\
+  Permutation (snd (run_lint_v verb fmt files)) (snd (run_lint_v verb fmt files')).
+Proof. exact lint_v_order. Qed.
+Print Assumptions C18_lint_order.
+
+(** with the shared formatter at any documented verbosity: exit 1 exactly when a non-warning violation is
+    reported, every violation of every file reported *)
+Theorem C18_lint_shared : forall verb fmt files,
+  (0 <= verb)%Z -> no_ignore files ->
+  let '(code, reps) := run_lint_v verb fmt files in
+  (code = 1 \/ code = 0) /\
+  (code = 1 <-> exists vs v, In vs files /\ In v vs /\ v_warning v = false) /\
+  Forall2 (fun rep vs => Permutation (fst rep) (map rl vs)) reps files.
+Proof. exact lint_v_exit_spec. Qed.
+Print Assumptions C18_lint_shared.
+
+(** any two verbosities from 0 upwards, any two formats: same exit code, same reported violations per file *)
+Theorem C18_verbosity_agree : forall v1 v2 f1 f2 files,
+  (0 <= v1)%Z -> (0 <= v2)%Z -> no_ignore files ->
+  fst (run_lint_v v1 f1 files) = fst (run_lint_v v2 f2 files) /\
+  Forall2 (fun a b => Permutation (fst a) (fst b)) (snd (run_lint_v v1 f1 files)) (snd (run_lint_v v2 f2 files)).
+Proof. exact lint_v_agree. Qed.
+Print Assumptions C18_verbosity_agree.
+
+(** the stateful run refines the per-file account used by the theorems above *)
+Theorem C18_shared_refines : forall verb fmt files, (0 <= verb)%Z ->
+  run_lint fmt files = Some (fst (run_lint_v verb fmt files), map fst (snd (run_lint_v verb fmt files))).
+Proof. exact lint_v_as_lint. Qed.
+Print Assumptions C18_shared_refines.
+
+(** human format: the header says FAIL exactly for a file with a non-warning violation; above verbosity 0 every
+    file has a header; a file without header has nothing printed and nothing found *)
+Theorem C18_human_header : forall verb vs,
+  (0 <= verb)%Z -> (forall v, In v vs -> v_ignore v = false) ->
+  let '(r, h) := human_file_v verb vs in
+  (h = Some false <-> exists v, In v vs /\ v_warning v = false) /\
+  ((0 < verb)%Z -> h <> None) /\
+  (h = None -> r = [] /\ vs = []).
+Proof. exact human_header_spec. Qed.
+Print Assumptions C18_human_header.
+
+Theorem C18_stdin_shared : forall verb fmt vs,
+  run_lint_v verb fmt [vs] = (fst (run_lint_stdin_v verb fmt vs), [snd (run_lint_stdin_v verb fmt vs)]).
+Proof. exact stdin_v_agrees. Qed.
+Print Assumptions C18_stdin_shared.
+
+(** outside the documented range (verbose < 0) the human format is silent and exits 0 whatever was found *)
+Theorem C18_human_quiet : forall verb files, (verb < 0)%Z ->
+  run_lint_v verb Human files = (0, map (fun _ => ([], None)) files).
+Proof. exact human_quiet. Qed.
+Print Assumptions C18_human_quiet.
